@@ -16,6 +16,18 @@ CHECKS = {
  "C02": dict(cat="proof", tech=TECH % "GF(2)-affine normal forms + z3",
       text="icao body proved against the Annex 10 contract (AA upper-case for DF11/17/18, parity xor AP for DF0/4/5/16/20/21, None otherwise) for every frame and every letter-case assignment; transponder-side round trips for all 2^24 addresses and payloads; adsb.icao / allcall.icao wrappers.",
       ref="DESIGN.md section 5 C02"),
+ "C03": dict(cat="proof", tech=TECH % "z3 / cvc5 over linear mixed integer-real arithmetic, one VC per NL band (59) x band offset x time order x argument order",
+      text="The real airborne_position body is symbolically executed on frames produced by the DO-260B encoder (spec/cpr_spec.py) from two real positions up to 3 NM apart in latitude and 1 NM in longitude; per NL band the VC 'result == the newer frame's encoded (Rlat, Rlon mod 360); None iff the bands differ' is discharged over the reals; cprNL is replaced by its contract NL (proved in C06, with the grid-margin lemma); position() dispatch against opaque callee contracts. Quick explores 10 of the 59 bands, thorough all.",
+      ref="DESIGN.md section 5 C03", note=NOTE + " Floats as reals (A2): binary64 rounding inside the decoder is outside the proof; the native cross-check samples it."),
+ "C04": dict(cat="proof", tech=TECH % "z3 over linear mixed integer-real arithmetic, one VC per NL band x parity x airborne/surface",
+      text="airborne_position_with_ref and surface_position_with_ref are proved to return exactly the encoder's (Rlat, Rlon) for every reference inside the closed half-zone box (minus one quantisation step), hence independently of the reference; position_with_ref dispatch by type code.",
+      ref="DESIGN.md section 5 C04", note=NOTE + " Floats as reals (A2)."),
+ "C05": dict(cat="proof", tech=TECH % "z3 / cvc5 over linear mixed integer-real arithmetic, one VC per NL band x band offset x time order x longitude wrap",
+      text="surface_position (after the fix of the equator / antimeridian defect F9) is proved to return the newer frame's encoded position for every receiver within 0.74 degree of latitude and 45 NM / 44 degrees of longitude, in any 360-degree representation of the receiver longitude, for pairs up to 0.7 NM apart; None iff the NL bands differ. Quick explores 5 of the 59 bands, thorough all.",
+      ref="DESIGN.md section 5 C05", note=NOTE + " Floats as reals (A2)."),
+ "C06": dict(cat="proof", tech=TECH % "z3 over the reals (threshold tests) and interval branch-and-bound with a binary64 rounding model (closed form, 58 bands and 57 transition windows)",
+      text="cprNL's body is symbolically executed; the isclose/87-degree tests are decided by z3 against the DO-260B staircase (40-digit rational transition table), the closed form floor(2pi/arccos(...)) by rigorous interval B&B on every band interior and inside every 1e-9 window; evenness by z3; the sub-band 1e-8..1e-4 degree next to the equator is only checked natively (bounded) because no rounding model can decide floor() there.",
+      ref="DESIGN.md section 5 C06", note=NOTE + " A3: libm/numpy elementary functions within 4 ulp; mpmath interval arithmetic trusted."),
  "C07": dict(cat="proof", tech=TECH % "z3 (bit level / linear integer arithmetic)",
       text="Every function between the property and the bits (gray2int, gray2alt, altitude, altcode, bds05.altitude, adsb.altitude, surv.altitude) has a functional contract taken from Annex 10 (spec/alt_spec.py); each body is symbolically executed from /repo's current text with callees replaced by their contracts and the VCs are discharged for all 8192/4096 codes and all other frame bits at once; int(N*3.28084) has a robustness side-obligation.",
       ref="DESIGN.md section 5 C07"),
